@@ -20,6 +20,12 @@ fresh server per explored history, replayed from the start).  A model client fol
   together they imply the statement's client-vs-M equality; separating them names the mechanism.
 Rule for both: equal on every key of the right-hand side; a key only the left-hand side holds must be invisible in both.
 Protocol 1 (no visibility channel) is compared on options visible in the reference, `defaults` only in protocol 3.
+Tree dimension "hidden through the prompt": trees phide / phidden hold one option of EVERY value type (bool, int, hex, string,
+float, float with a range) whose PROMPT is conditional (`<type> "p" if ADV`, not `depends on`), each with a default, so
+the option stays in the configuration (and in the saved file) while hidden; the alphabet sets each to a non-default value,
+hides / shows them (alone, in one request with the edits, together with `save`), resets, saves and loads files that carry
+values for them while hiding them.  A user value given while shown must not count while hidden (client, live server and
+saved file agree on the default) and counts again when shown.  trees() asserts that every value type has such an option.
 Only mismatches that the LAST request introduced are reported (those already present after the prefix were reported
 when the prefix was visited), so `op` in the signature is the triggering request class.
 """
@@ -41,7 +47,9 @@ RULE = (
     "unknown; load null / snapshot / hand-written file / untouched copy of the start-up file (discarding every edit) / "
     "hand-written file + save null; save null / other file) to depth 3 (quick) / 4 (thorough); trees include choices with "
     "a non-default member selectable by set, by the start-up file and by the hand-written file (default-marked and plain "
-    "start-up files), reset by symbol / menu id / all; a fresh "
+    "start-up files), reset by symbol / menu id / all; an option of every value type (bool, int, hex, string, float, ranged "
+    "float) hidden through its prompt condition while it holds a user value, in set / hide / save / show / load interleavings, "
+    "from an all-default start and from a start-up file that gives the hidden options values; a fresh "
     "real server per history; states merged on (server configuration incl. user values, client model, files on disk, "
     "last-used file); sub-trees whose depth-1 state equals the initial state or that of an earlier first request are "
     "explored there. `states` is the sum of per-sub-tree distinct states. distinct_nontrivial = distinct (tree, protocols, "
@@ -58,6 +66,8 @@ ASSUMPTIONS = [
     "with set / reset in the same request the configuration is no longer the loaded file's); the loaded content is taken "
     "from the files the prefix history left on disk, the file a null load uses follows the server's documented rule (a "
     "named load / save becomes current unless it failed)",
+    "prompt-hidden options: one switch hides all types at once (the evaluator's per-type branches are independent; what is "
+    "varied is the type, the request interleaving and where the value came from -- request, start-up file, loaded file)",
     "menu ids are obtained by running with cwd = tree directory and --kconfig Kconfig, as the repository's tests do",
 ]
 
@@ -448,7 +458,80 @@ def trees() -> Dict[str, dict]:
         "hand": 'CONFIG_TAG="hand"\n',
         "alphabet": ch_alpha,
     }
+    # an option of EVERY value type hidden through its PROMPT condition (`<type> "p" if ADV`, not `depends on`): such an
+    # option keeps its defaults (and its place in the saved file) while hidden, so a user value given while it was shown
+    # must stop counting the moment the prompt goes away and count again when it comes back -- per type, because the
+    # evaluator has one branch per type.  A float with a range joins the plain one (the range is applied in the same
+    # branch).  Two starting points on the same tree:
+    #   phide   everything at its default and shown; the hand-written file hides the options and carries values for them
+    #   phidden the project file hides the options and carries a value for each of them (user values that never were
+    #           visible); the hand-written file shows them and sets some
+    ph_files = kgen.render(Program(children=PHIDE_NODES()))
+    ph_alpha = [
+        _set(ADV=False),
+        _set(ADV=True),
+        _set(PB=False),
+        _set(PI=9),
+        _set(PH="2f"),
+        _set(PS="custom"),
+        _set(PF=1.5),
+        _set(PFR=2.0),
+        # each type's edit and the hiding switch in ONE request (option first, switch second; the server applies what is visible)
+        _setp(("PB", False), ("PI", 11), ("PH", 48), ("PS", "both"), ("PF", 2.5), ("PFR", 1.0), ("ADV", False)),
+        _setp(("ADV", True), ("PF", 3.5), ("PI", 12)),
+        _set(PF="x"),
+        {"reset": ["PF", "PI"]},
+        {"reset": ["ADV"]},
+        {"set": {"ADV": False}, "save": None},
+    ] + COMMON_TAIL
+    T["phide"] = {
+        "files": ph_files,
+        "sdk0": "",
+        "hand": '# CONFIG_ADV is not set\n# CONFIG_PB is not set\nCONFIG_PI=8\nCONFIG_PH=0x2a\nCONFIG_PS="hand"\nCONFIG_PF=2.25\nCONFIG_PFR=1.5\n',
+        "alphabet": ph_alpha,
+    }
+    T["phidden"] = {
+        "files": ph_files,
+        "sdk0": '# CONFIG_ADV is not set\n# CONFIG_PB is not set\nCONFIG_PI=9\nCONFIG_PH=0x2f\nCONFIG_PS="custom"\nCONFIG_PF=1.5\nCONFIG_PFR=2.0\n',
+        "hand": "CONFIG_ADV=y\nCONFIG_PF=2.25\nCONFIG_PI=8\n",
+        "alphabet": ph_alpha,
+    }
+    selfcheck_prompt_hidden(T)
     return T
+
+
+VALUE_TYPES = ("bool", "int", "hex", "string", "float")
+
+
+def PHIDE_NODES() -> list:
+    def p(name: str, typ: str, default: str, **kw) -> Cfg:
+        return Cfg(name, typ, prompt=name.lower(), prompt_cond=S("ADV"), defaults=[(L(default), None)], **kw)
+
+    return [
+        b("ADV", "y"),
+        p("PB", "bool", "y"),
+        p("PI", "int", "7"),
+        p("PH", "hex", "0x10"),
+        p("PS", "string", '"std"'),
+        p("PF", "float", "0.5"),
+        p("PFR", "float", "0.25", ranges=[(L("0.0"), L("4.0"), None)]),
+    ]
+
+
+def selfcheck_prompt_hidden(T: Dict[str, dict]) -> None:
+    """The explored trees must hold, for every value type, an option with a conditional prompt and a default that some
+    request of the tree's alphabet sets (a harness invariant: raises, never a violation)."""
+    nodes = {c.name: c for c in PHIDE_NODES() if isinstance(c, Cfg)}
+    have = set()
+    for t in (T["phide"], T["phidden"]):
+        for a in t["alphabet"]:
+            for name in a.get("set", {}):
+                c = nodes.get(name)
+                if c is not None and c.prompt_cond is not None and c.defaults and not c.depends:
+                    have.add(c.type)
+    missing = [t for t in VALUE_TYPES if t not in have]
+    if missing:
+        raise AssertionError(f"C14: no prompt-hidden option with a user value for type(s) {missing}")
 
 
 # (server default version, request version): the three client versions against the default server (the CLI always
